@@ -10,10 +10,11 @@
                      C13_inorder_once, C13_sequential_equiv compression, all N / chunk counts / schedules
                      C13_tpool_compress_never_full, C13_waiters_homogeneous   (+ instances at the generated depths)
                      C13_depth1_deadlock                    the lost wake-up at queue depth 1 (witness)
-   Not proved:       C13_no_deadlock_full_statement, C13_terminates_full_statement (kept as Definitions at the end). *)
+                     C13_no_deadlock (+ instances), C13_stuck_is_complete   deadlock freedom, all N / chunk counts / schedules
+   Not proved:       C13_terminates_full_statement (kept as a Definition at the end). *)
 From Coq Require Import ZArith List Lia Bool Permutation.
 From LZ4V Require Import Gen.Consts Gen.TPoolSites Model.WriteReg Model.TPool Model.Pipeline
-  Proofs.WriteRegProofs Proofs.TPoolProofs Proofs.DecodeRingProofs Proofs.CompressProofs Proofs.NeverFullProofs Proofs.C13Inst.
+  Proofs.WriteRegProofs Proofs.TPoolProofs Proofs.DecodeRingProofs Proofs.CompressProofs Proofs.NeverFullProofs Proofs.DeadlockProofs Proofs.C13Inst.
 Import ListNotations.
 Local Open Scope Z_scope.
 
@@ -256,16 +257,72 @@ Theorem C13_never_full_lz4f :
 Proof. exact never_full_lz4f. Qed.
 Print Assumptions C13_never_full_lz4f.
 
-(* What is NOT proved (kept visible): progress and termination for unbounded N / chunk counts.
-   The bounded exhaustive exploration run by the check (extracted model at the generated constants, N <= 3,
-   <= 4 chunks, every interleaving and wake-up choice) finds no deadlock; it is a supplement, not a theorem. *)
-Definition C13_no_deadlock_full_statement : Prop :=
+(* ------------------------------------------------------------------------------------------------
+   Deadlock freedom of the compression pipelines (Proofs/DeadlockProofs.v), the full statement:
+   for EVERY worker count N >= 1, every number of chunks, tPool depth >= 2, wPool depth >= 1, every schedule and
+   every wake-up choice made so far: a reachable state that is not final has an enabled pick.
+   Proved through a third inductive invariant of pstep (on top of cinv and ninv): the waiter lists of the two
+   condition variables are exactly the threads parked there; a worker parked on queuePopCond implies
+   |queue| <= number of idle workers of that pool; a submitter parked on wPool's queuePushCond implies
+   depth <= |queue| + number of workers about to push; the main thread parked in TPool_jobsCompleted(p) implies p has a
+   queued or running job (this is where tpool_compress_never_full / waiters_homogeneous are used: the signal that
+   ends the last job can only wake the main thread); joined threads are done; after shutdown+broadcast of p nobody
+   parks on p's queuePopCond.  The pick exhibited wakes the first waiter of the signalled condition. *)
+Theorem C13_no_deadlock :
   forall c : cfg,
     (c_kind c = CompLegacy \/ (c_kind c = CompLZ4F /\ (1 <= c_nfull c)%nat)) ->
     (1 <= c_N c)%nat -> (2 <= c_tdepth c)%nat -> (1 <= c_wdepth c)%nat ->
     forall (sched : list pick) (st : state),
       run c (init_state c) sched = Some st -> final st = false ->
       exists pk st', pstep c st pk = Some st'.
+Proof. exact no_deadlock. Qed.
+Print Assumptions C13_no_deadlock.
+
+(* a run that cannot be extended by any pick is a completed run whose output is the sequential output *)
+Theorem C13_stuck_is_complete :
+  forall c : cfg,
+    (c_kind c = CompLegacy \/ (c_kind c = CompLZ4F /\ (1 <= c_nfull c)%nat)) ->
+    (1 <= c_N c)%nat -> (2 <= c_tdepth c)%nat -> (1 <= c_wdepth c)%nat ->
+    forall (sched : list pick) (st : state),
+      run c (init_state c) sched = Some st -> (forall pk, pstep c st pk = None) ->
+      final st = true /\ s_out st = sequential_output c.
+Proof. exact stuck_is_complete. Qed.
+Print Assumptions C13_stuck_is_complete.
+
+(* instances at the generated TPool_create depths (setting the tPool depth to 1 in the C source breaks them;
+   C13_depth1_deadlock is then the counter-example) *)
+Theorem C13_no_deadlock_legacy :
+  forall (N nfull : nat) (last : bool) (sched : list pick) (st : state), (1 <= N)%nat ->
+    run (cl_cfg N nfull last) (init_state (cl_cfg N nfull last)) sched = Some st -> final st = false ->
+    exists pk st', pstep (cl_cfg N nfull last) st pk = Some st'.
+Proof. exact no_deadlock_legacy. Qed.
+Print Assumptions C13_no_deadlock_legacy.
+
+Theorem C13_no_deadlock_lz4f :
+  forall (N nfull : nat) (last : bool) (sched : list pick) (st : state), (1 <= N)%nat -> (1 <= nfull)%nat ->
+    run (cf_cfg N nfull last) (init_state (cf_cfg N nfull last)) sched = Some st -> final st = false ->
+    exists pk st', pstep (cf_cfg N nfull last) st pk = Some st'.
+Proof. exact no_deadlock_lz4f. Qed.
+Print Assumptions C13_no_deadlock_lz4f.
+
+(* hypotheses met in a non-trivial blocked-looking state: 2 workers, 2 chunks; the main thread is parked in
+   TPool_jobsCompleted(tPool), worker 2 and the writer are parked on their queuePopCond, worker 1 runs the reader job:
+   the state is not final and the theorem's pick exists (here: worker 1 waking worker 2; the pick (1,3) is not enabled: thread 3 does not wait on that condition) *)
+Example C13_no_deadlock_nonvacuous :
+  let c := cl_cfg 2 1 true in
+  match run c (init_state c) [(0,3);(1,3);(0,3);(3,3);(2,3)]%nat with
+  | Some st => (final st, blocked_all st, s_mst st, match pstep c st (1, 2)%nat with Some _ => true | None => false end)
+               = (false, false, MWaitPush PT, true)
+  | None => False
+  end.
+Proof. vm_compute. reflexivity. Qed.
+
+(* What is NOT proved (kept visible): termination, i.e. a bound on the length of every schedule.
+   The statement is believed true of the model (every step either consumes work - a main operation, a push, a pop, a
+   job end, a thread exit - or parks an awake thread, and a thread is only woken by a step that consumes work), the
+   measure would be  (N+3) * remaining_work + number_of_awake_threads ; it needs one more pass over pstep on top of
+   cinv + DI (to exclude the error self-loops) that has not been done.  The bounded exhaustive exploration run by the
+   check (extracted model, every interleaving and wake-up choice, N <= 3, <= 4 chunks) always terminates. *)
 Definition C13_terminates_full_statement : Prop :=
   forall c : cfg,
     (c_kind c = CompLegacy \/ (c_kind c = CompLZ4F /\ (1 <= c_nfull c)%nat)) ->
